@@ -462,7 +462,10 @@ class Shim:
         if script:
             if self.d.vshim_script(script, len(script)) != 0:
                 raise ValueError("script too long")
-    def fail_at(self, i, sticky=False): self.d.vshim_fail_at(i, 1 if sticky else 0)
+    def fail_at(self, i, sticky=False, err=0, count=0):
+        self.d.vshim_fail_errno(err)
+        self.d.vshim_fail_count(count)
+        self.d.vshim_fail_at(i, 1 if sticky else 0)
     def draws(self): return self.d.vshim_draws()
     def log(self):
         n = self.d.vshim_log_len()
